@@ -192,8 +192,10 @@ func runDelayCase(c dcase, r *res.Result) (string, string) {
 	}
 	sendersDone := make(chan struct{})
 	go func() { wg.Wait(); close(sendersDone) }()
-	watchdog := time.After(60 * time.Second)
+	watchdog := time.After(25 * time.Second)
 	var panicMsg string
+	lastProgress := time.Now()
+	lastN := -1
 wait:
 	for {
 		select {
@@ -203,6 +205,37 @@ wait:
 			break wait
 		case <-watchdog:
 			return "", "inconclusive: senders did not finish within the watchdog"
+		case <-time.After(20 * time.Millisecond):
+			// a sender may be blocked in the hand-over because the forwarding loop itself is stuck: no datagram came out
+			// for delay + 1 s, a canary timer fires, and the loop goroutine is parked (three samples)
+			mu.Lock()
+			n := len(got)
+			mu.Unlock()
+			if n != lastN {
+				lastN, lastProgress = n, time.Now()
+				continue
+			}
+			if time.Since(lastProgress) > delay+time.Duration(c.JitterUs)*time.Microsecond+time.Second {
+				cn := make(chan struct{})
+				time.AfterFunc(0, func() { close(cn) })
+				<-cn
+				stable := 0
+				st := ""
+				for k := 0; k < 3; k++ {
+					ps := gstate.ParkedIn(gstate.Snapshot(), parkFn)
+					if len(ps) == 1 {
+						stable++
+						st = ps[0].State
+					}
+					time.Sleep(2 * time.Millisecond)
+				}
+				mu.Lock()
+				n2 := len(got)
+				mu.Unlock()
+				if stable == 3 && n2 == n {
+					return "delay:" + c.Kind + ":stuck", fmt.Sprintf("no datagram was forwarded for %v although %d were handed in and senders are still blocked handing more in; the forwarding loop is parked (%s) and a canary timer fires", time.Since(lastProgress).Round(time.Millisecond), len(sent)-0, st)
+				}
+			}
 		}
 	}
 	if panicMsg == "" {
@@ -339,6 +372,9 @@ func runDelay(tier string, seed int64, shard, nshard int, r *res.Result, replay 
 			seen[key]++
 			if seen[key] <= 2 {
 				r.Violate(key, desc, c)
+			}
+			if seen[key] >= 3 {
+				break // a stuck or crashed forwarding loop leaves blocked goroutines behind; three witnesses are enough
 			}
 			continue
 		}
